@@ -13,12 +13,15 @@ import Pog.Lemmas.ClientGen
     tuples (= properties) in the code-point order of their keys                          full  `tag_tuples_sorted_by_key`
     1  every tag of every operation has its property on APIClient (C07)                  full  `every_tag_group_has_a_property`,
        number of properties = number of distinct keys; = the endpoint groups of the emitter    `property_count`, `tag_clients_are_properties`
+       the property is named `_tag_attr_name(module)`: the module name unless that collides  full  `tag_attr_unchanged_iff`, `property_names_are_tag_attrs`
     2  property names are identifiers (C20)                                              ✗     `property_names_valid_partial` / `_counterexample`
        … never `config`                                                                  full  `property_name_never_config`
-       … never `_base_url`, `__aenter__`, `__aexit__`, `__init__`                        ✗     `property_names_avoid_dunder_partial` (ASCII-or-alnum tags),
-                                                                                               `property_named_base_url_counterexample` (non-ASCII)
-       … never `request`, `close`, `transport`                                           ✗     `property_names_counterexample`, `property_names_partial`
-       every property survives in the finished class                                     ✗     `properties_survive_partial`, `property_shadowed_counterexample`
+       … never `_base_url`, `__aenter__`, `__aexit__`, `__init__` (F64 repaired)          full  `property_names_avoid_dunder`,
+                                                                                               `property_named_base_url_former_witness` (non-ASCII)
+       … never `request`, `close`, `transport`, `self` (F64 repaired)                     full  `property_names`, `property_names_former_witness`
+       no property is replaced by a method of the class body (F64 repaired)              full  `properties_not_shadowed_by_methods`
+       every property survives in the finished class                                     ✗     `properties_survive_partial` (ASCII tags; the method names are
+                                                                                               no longer excluded), `property_shadowed_former_witness`
     3  property names pairwise distinct                                                  ✗     `property_names_pairwise_distinct_partial` (ASCII tags),
                                                                                                `…_counterexample` (`aé` / `a`)
     4  Protocol, APIClient and MockAPIClient written from the SAME tuples agree (C13)    full  `surfaces_agree`
@@ -26,10 +29,12 @@ import Pog.Lemmas.ClientGen
                                                                                                `mock_surface_partial`
     5  `MockAPIClient.__init__` always has a body (C01, F31 repaired)                     full  `mock_init_body_never_empty`,
        `mock_client.py` compiles for a document without operations                             `mock_client_compiles_when_no_operation`
-       other ways `mock_client.py` does not compile                                      ✗     `mock_duplicate_argument_counterexample`, `mock_self_argument_counterexample`
-    6  `_<module>` differs from every property and from `config` / `transport`           ✗     `private_attr_names_distinct_from_public_partial`,
+       other ways `mock_client.py` does not compile                                      ✗     `mock_duplicate_argument_counterexample`
+       … the tag `self` is not one of them (F64 repaired)                                 full  `mock_self_never_a_keyword`, `mock_self_argument_former_witness`
+    6  `_<attr>` differs from every own member of the class, `_base_url` included         full  `private_attr_never_own_member`, `fixed_attrs_assigned_once`,
+       (F64 repaired)                                                                          `private_attr_base_url_former_witness`
+       `_<attr>` differs from every property                                             ✗     `private_attr_names_distinct_from_public_partial`,
                                                                                                `private_attr_counterexample` (non-ASCII)
-       … and from `_base_url`                                                            ✗     `private_attr_base_url_counterexample`, `private_attr_base_url_iff`
 -/
 namespace Pog.ClientGenProps
 open Pog Pog.ClientGen
@@ -65,12 +70,12 @@ theorem tag_tuples_sorted_by_key (u : UInfo) (tagss : List (List Str)) :
 /-! ## 1 — every tag group has a property (C07) -/
 
 /-- **C07.**  For every operation and every tag of it (or `default`), `APIClient` has a property named
-    `sanitize_module_name(c)` that returns `sanitize_class_name(c) + "Client"`, where `c` is the canonical tag of the
+    `_tag_attr_name(sanitize_module_name(c))` that returns `sanitize_class_name(c) + "Client"`, where `c` is the canonical tag of the
     normalised key of that tag; `c` has the same key and is itself a tag of some operation. -/
 theorem every_tag_group_has_a_property (u : UInfo) (tagss : List (List Str)) (ts : List Str) (hts : ts ∈ tagss)
     (t : Str) (ht : t ∈ tagsOr ts) :
     let c := canonicalTag u tagss (normTagKey u t)
-    (sanModule u c, sanClass c ++ kClientSuffix) ∈ (apiClientSkel (tagTuples u tagss)).props ∧
+    (tagAttr (sanModule u c), sanClass c ++ kClientSuffix) ∈ (apiClientSkel (tagTuples u tagss)).props ∧
       normTagKey u c = normTagKey u t ∧ ∃ ts' ∈ tagss, c ∈ tagsOr ts' := by
   intro c
   have hk : normTagKey u t ∈ tupleKeys u tagss := (mem_tupleKeys u tagss _).2 ⟨ts, hts, t, ht, rfl⟩
@@ -84,17 +89,18 @@ theorem every_tag_group_has_a_property (u : UInfo) (tagss : List (List Str)) (ts
 theorem property_count (u : UInfo) (tagss : List (List Str)) :
     ∃ ks : List Str, ks.Nodup ∧ (∀ k, k ∈ ks ↔ ∃ ts ∈ tagss, ∃ t ∈ tagsOr ts, normTagKey u t = k) ∧
       (apiClientSkel (tagTuples u tagss)).props =
-        ks.map (fun k => (sanModule u (canonicalTag u tagss k), sanClass (canonicalTag u tagss k) ++ kClientSuffix)) := by
+        ks.map (fun k => (tagAttr (sanModule u (canonicalTag u tagss k)), sanClass (canonicalTag u tagss k) ++ kClientSuffix)) := by
   refine ⟨tupleKeys u tagss, tupleKeys_nodup u tagss, mem_tupleKeys u tagss, ?_⟩
   simp only [apiClientSkel_props, tagTuples_eq_map, List.map_map]
   rfl
 
 /-- **C07.**  The properties of `APIClient` are exactly (up to the order `sorted(tag_map)`) the tag clients that
-    `EndpointsEmitter.emit` writes for the same operations: property `<module>` returns class `<cls>` of
+    `EndpointsEmitter.emit` writes for the same operations: property `_tag_attr_name(<module>)` returns class `<cls>` of
     `endpoints/<module>.py`.  Operation ids play no role. -/
 theorem tag_clients_are_properties (u : UInfo) (ops : List TagOp) :
-    ((apiClientSkel (tagTuples u (ops.map (·.tags)))).props).Perm ((groupEndpoints u ops).map fun g => (g.module, g.cls)) := by
-  have h := (tagTuples_perm_groups_ops u ops).map (fun t : TagTuple => (t.module, t.cls))
+    ((apiClientSkel (tagTuples u (ops.map (·.tags)))).props).Perm
+      ((groupEndpoints u ops).map fun g => (tagAttr g.module, g.cls)) := by
+  have h := (tagTuples_perm_groups_ops u ops).map (fun t : TagTuple => (tagAttr t.module, t.cls))
   simpa [apiClientSkel_props, List.map_map, Function.comp_def, groupTuple, TagTuple.module, TagTuple.cls] using h
 
 /-- Two operations, three spellings of one tag and an untagged operation. -/
@@ -105,25 +111,56 @@ example :
 
 /-! ## 2 — property names (C20) -/
 
+/-- **F64 repaired.**  The name under which a tag client is exposed is `_tag_attr_name(module)`: the module name, kept
+    unchanged exactly when neither it nor `_` + it is one of the names the classes define themselves (`ownMembers`);
+    otherwise a `_` is appended (ordinary tags keep their names). -/
+theorem tag_attr_unchanged_iff (m : Str) : tagAttr m = m ↔ (m ∉ ownMembers ∧ privAttr m ∉ ownMembers) := by
+  constructor
+  · intro h
+    rcases tagAttr_cases m with ⟨_, h1, h2⟩ | ⟨_, h'⟩
+    · exact ⟨h1, h2⟩
+    · rw [h] at h'
+      have := congrArg List.length h'
+      simp at this
+  · rintro ⟨h1, h2⟩
+    exact tagAttr_of_not m h1 h2
+
+example : tagAttr (s "users") = s "users" ∧ tagAttr (s "request") = s "request_" ∧ tagAttr (s "base_url") = s "base_url_" ∧
+    tagAttr (s "config_") = s "config_" := by decide
+
+/-- The property names of the three classes, the private attributes and the keywords of `MockAPIClient.__init__` are all
+    derived from the module names by `_tag_attr_name`. -/
+theorem property_names_are_tag_attrs (tt : List TagTuple) :
+    (apiClientSkel tt).props.map (·.1) = tt.map (fun t => tagAttr t.module) ∧
+    (apiClientSkel tt).attrs = fixedAttrs ++ tt.map (fun t => privAttr (tagAttr t.module)) ∧
+    (mockClientSkel tt).initParams = kSelf :: tt.map (fun t => tagAttr t.module) := by
+  refine ⟨?_, rfl, rfl⟩
+  simp [apiClientSkel_props, List.map_map, Function.comp_def]
+
 /-- ✗ `property_names_valid`: every property name is a valid identifier that is no keyword — false (`-`, `用户`).
     Partial: when every tag has an ASCII alphanumeric; then the returned class names are identifiers too. -/
 theorem property_names_valid_partial (u : UInfo) (tagss : List (List Str))
     (h : ∀ ts ∈ tagss, ∀ t ∈ ts, t.any isAlnumA = true) :
     ∀ p ∈ (apiClientSkel (tagTuples u tagss)).props, isPyIdent p.1 = true ∧ isKeyword p.1 = false ∧
       visitSyntaxOk (tagTuples u tagss) = true := by
-  have hall : ∀ t ∈ tagTuples u tagss, isPyIdent t.module = true ∧ isKeyword t.module = false := by
+  have hall : ∀ t ∈ tagTuples u tagss, isValidPyIdentifier t.module = true ∧ isValidPyIdentifier (tagAttr t.module) = true := by
     intro t ht
     obtain ⟨h1, h2⟩ := tuple_of_tags u tagss (fun c => c.any isAlnumA = true) kDefaultTag_alnum h t ht
-    rw [h1, tuple_module]
-    exact sanModule_valid u _ h2
+    have hv : isValidPyIdentifier t.module = true := by
+      rw [h1, tuple_module]
+      have := sanModule_valid u _ h2
+      simp [isValidPyIdentifier, this.1, this.2]
+    exact ⟨hv, tagAttr_valid _ hv⟩
   intro p hp
   rw [apiClientSkel_props] at hp
   obtain ⟨t, ht, rfl⟩ := List.mem_map.1 hp
-  refine ⟨(hall t ht).1, (hall t ht).2, ?_⟩
+  have hv := (hall t ht).2
+  simp only [isValidPyIdentifier, Bool.and_eq_true, Bool.not_eq_true'] at hv
+  refine ⟨hv.2, hv.1, ?_⟩
   unfold visitSyntaxOk
   rw [List.all_eq_true]
   intro t' ht'
-  simp [isValidPyIdentifier, (hall t' ht').1, (hall t' ht').2]
+  simp [(hall t' ht').1, (hall t' ht').2]
 
 example : ∀ ts ∈ [[s "Data Sources", s "class"], [s "1st"], []], ∀ t ∈ ts, t.any isAlnumA = true := by decide
 
@@ -133,91 +170,64 @@ theorem property_names_valid_counterexample :
       visitSyntaxOk (tagTuples UInfo.ascii [[s "-"]]) = false ∧ mockSyntaxOk (mockTuples UInfo.ascii [[s "-"]]) = false := by
   decide
 
-/-- No property is ever called `config` (the instance attribute): `config` is a reserved name, the sanitiser appends `_`.
-    Every input, every case table; re-checked against the generated table `RESERVED_NAMES`. -/
+/-- **F64 repaired** (was `property_names_partial`: `TagsOK`, and no tag group called `request`, `close` or `transport`).
+    For EVERY input and every case table, no property name is one of the names the class defines itself: a fixed method
+    (`request`, `close`, `__aenter__`, `__aexit__`), a fixed instance attribute (`config`, `transport`, `_base_url`),
+    `__init__`, or `self` (the receiver of `MockAPIClient.__init__`, whose keywords are the property names). -/
+theorem property_names (u : UInfo) (tagss : List (List Str)) :
+    ∀ p ∈ (apiClientSkel (tagTuples u tagss)).props, p.1 ∉ fixedMethods ++ fixedAttrs ++ [kInit] ∧ p.1 ≠ kSelf := by
+  intro p hp
+  rw [apiClientSkel_props] at hp
+  obtain ⟨t, _, rfl⟩ := List.mem_map.1 hp
+  have h := (tagAttr_not_own t.module).1
+  simp only [ownMembers, List.mem_cons, List.not_mem_nil, or_false, not_or] at h
+  simp only [fixedMethods, fixedAttrs, List.cons_append, List.nil_append, List.mem_cons, List.not_mem_nil, or_false, not_or]
+  exact ⟨⟨h.2.2.2.1, h.2.2.2.2.1, h.2.2.2.2.2.1, h.2.2.2.2.2.2.1, h.1, h.2.1, h.2.2.1, h.2.2.2.2.2.2.2.1⟩, h.2.2.2.2.2.2.2.2⟩
+
+/-- No property is ever called `config` (the instance attribute): `config` is a reserved name, the sanitiser appends `_`
+    (and `_tag_attr_name` would).  Every input, every case table. -/
 theorem property_name_never_config (u : UInfo) (tagss : List (List Str)) :
     ∀ p ∈ (apiClientSkel (tagTuples u tagss)).props, p.1 ≠ kConfig := by
   intro p hp
-  rw [apiClientSkel_props] at hp
-  obtain ⟨t, ht, rfl⟩ := List.mem_map.1 hp
-  obtain ⟨h1, _⟩ := mem_tagTuples_tag u tagss t ht
-  rw [h1, tuple_module]
-  exact sanModule_ne_reserved u _ kConfig (by decide) (by decide)
+  have h := (property_names u tagss p hp).1
+  simp only [fixedMethods, fixedAttrs, List.cons_append, List.nil_append, List.mem_cons, List.not_mem_nil, or_false, not_or] at h
+  exact h.2.2.2.2.1
 
 example : (apiClientSkel (tagTuples UInfo.ascii [[s "config"], [s "Config"]])).props = [(s "config_", s "Config_Client")] := by
   decide
 
-/-- ✗ for arbitrary non-ASCII tags (`property_named_base_url_counterexample`).  Partial, `TagsOK`: a property is never called
-    `_base_url`, `__aenter__`, `__aexit__` or `__init__`. -/
-theorem property_names_avoid_dunder_partial (u : UInfo) (tagss : List (List Str)) (hok : TagsOK tagss) :
+/-- **F64 repaired** (was `property_names_avoid_dunder_partial`, hypothesis `TagsOK`).  For every input and every case table a
+    property is never called `_base_url`, `__aenter__`, `__aexit__` or `__init__`. -/
+theorem property_names_avoid_dunder (u : UInfo) (tagss : List (List Str)) :
     ∀ p ∈ (apiClientSkel (tagTuples u tagss)).props, p.1 ∉ [kBaseUrl, kAenter, kAexit, kInit] := by
   intro p hp
-  rw [apiClientSkel_props] at hp
-  obtain ⟨t, ht, rfl⟩ := List.mem_map.1 hp
-  obtain ⟨h1, h2⟩ := tuple_of_tags u tagss (fun c => c.all isAscii = true ∨ c.any isAlnumA = true)
-    (.inr kDefaultTag_alnum) hok t ht
-  have hm : ModOK t.module := by rw [h1, tuple_module]; exact sanModule_modOK u _ h2
+  have h := (property_names u tagss p hp).1
+  simp only [fixedMethods, fixedAttrs, List.cons_append, List.nil_append, List.mem_cons, List.not_mem_nil, or_false, not_or] at h
   simp only [List.mem_cons, List.not_mem_nil, or_false, not_or]
-  exact ⟨ne_of_modOK _ _ hm (by decide) (by decide), ne_of_modOK _ _ hm (by decide) (by decide),
-    ne_of_modOK _ _ hm (by decide) (by decide), ne_of_modOK _ _ hm (by decide) (by decide)⟩
-
-example : TagsOK [[s "données", s "-"], [s "base_url"]] := by
-  intro ts hts t ht
-  simp only [List.mem_cons, List.not_mem_nil, or_false] at hts
-  rcases hts with rfl | rfl
-  · simp only [List.mem_cons, List.not_mem_nil, or_false] at ht
-    rcases ht with rfl | rfl
-    · exact .inr (by decide)
-    · exact .inl (by decide)
-  · simp only [List.mem_cons, List.not_mem_nil, or_false] at ht
-    subst ht
-    exact .inl (by decide)
+  exact ⟨h.2.2.2.2.2.2.1, h.2.2.1, h.2.2.2.1, h.2.2.2.2.2.2.2⟩
 
 /-- A case table in which the non-ASCII word character `é` lower-cases to the text `_base_url` (no CPython does that;
-    the theorems quantify over every table, so the hypothesis `TagsOK` cannot be dropped in the model). -/
+    the theorems quantify over every table). -/
 def uOdd : UInfo := { UInfo.ascii with word := fun c => c == 'é', lower := fun c => if c == 'é' then s "_base_url" else [c] }
 
-theorem property_named_base_url_counterexample :
-    (apiClientSkel (tagTuples uOdd [[s "é"]])).props.map (·.1) = [kBaseUrl] := by
+/-- The former witness of `property_named_base_url_counterexample`: even when the module name is `_base_url`, the property is
+    `_base_url_` (and its private attribute `__base_url_`). -/
+theorem property_named_base_url_former_witness :
+    (apiClientSkel (tagTuples uOdd [[s "é"]])).props.map (·.1) = [s "_base_url_"] ∧
+      (apiClientSkel (tagTuples uOdd [[s "é"]])).attrs = [kConfig, kTransport, kBaseUrl, s "__base_url_"] := by
   decide
 
-/-- ✗ `property_names`: a property name differs from the fixed methods and instance attributes — false.
-    Witnesses (defect classes `property-shadowed-by-method`, `property-named-like-instance-attribute`): the tags `request`,
-    `close`, `transport` are not reserved, so `APIClient` gets `@property def request` FOLLOWED by `async def request`
-    (the tag client is unreachable), and `@property def transport` while `__init__` assigns `self.transport`
-    (`AttributeError: property 'transport' … has no setter` on construction). -/
-theorem property_names_counterexample :
+/-- The former witnesses of `property_names_counterexample` (defect classes `property-shadowed-by-method`,
+    `property-named-like-instance-attribute`): the tag clients of `request`, `close`, `Transport` are the properties
+    `request_`, `close_`, `transport_`; their modules (import paths) keep their names. -/
+theorem property_names_former_witness :
     (apiClientSkel (tagTuples UInfo.ascii [[s "request"], [s "close", s "Transport"]])).props.map (·.1) =
-      [kClose, kRequest, kTransport] ∧
+      [s "close_", s "request_", s "transport_"] ∧
     (apiClientSkel (tagTuples UInfo.ascii [[s "request"], [s "close", s "Transport"]])).methods = fixedMethods ∧
-    kTransport ∈ (apiClientSkel (tagTuples UInfo.ascii [[s "request"], [s "close", s "Transport"]])).attrs := by
+    (apiClientSkel (tagTuples UInfo.ascii [[s "request"], [s "close", s "Transport"]])).attrs =
+      [kConfig, kTransport, kBaseUrl, s "_close_", s "_request_", s "_transport_"] ∧
+    (tagTuples UInfo.ascii [[s "request"], [s "close", s "Transport"]]).map (·.module) = [kClose, kRequest, kTransport] := by
   decide
-
-/-- `property_names` for the inputs the code gets right: `TagsOK`, and no tag group is called `request`, `close` or
-    `transport`: then no property name is a fixed method, a fixed instance attribute or `__init__`. -/
-theorem property_names_partial (u : UInfo) (tagss : List (List Str)) (hok : TagsOK tagss)
-    (hx : ∀ t ∈ tagTuples u tagss, t.module ∉ [kRequest, kClose, kTransport]) :
-    ∀ p ∈ (apiClientSkel (tagTuples u tagss)).props, p.1 ∉ fixedMethods ++ fixedAttrs ++ [kInit] := by
-  intro p hp
-  have h1 := property_name_never_config u tagss p hp
-  have h2 := property_names_avoid_dunder_partial u tagss hok p hp
-  rw [apiClientSkel_props] at hp
-  obtain ⟨t, ht, rfl⟩ := List.mem_map.1 hp
-  have h3 := hx t ht
-  simp only [List.mem_cons, List.not_mem_nil, or_false, not_or] at h2 h3
-  simp only [fixedMethods, fixedAttrs, List.cons_append, List.nil_append, List.mem_cons, List.not_mem_nil, or_false, not_or]
-  exact ⟨h3.1, h3.2.1, h2.2.1, h2.2.2.1, h1, h3.2.2, h2.1, h2.2.2.2⟩
-
-example : TagsOK [[s "Users", s "requests"], []] ∧
-    ∀ t ∈ tagTuples UInfo.ascii [[s "Users", s "requests"], []], t.module ∉ [kRequest, kClose, kTransport] := by
-  constructor
-  · intro ts hts t ht
-    simp only [List.mem_cons, List.not_mem_nil, or_false] at hts
-    rcases hts with rfl | rfl
-    · simp only [List.mem_cons, List.not_mem_nil, or_false] at ht
-      rcases ht with rfl | rfl <;> exact .inl (by decide)
-    · cases ht
-  · decide
 
 /-! ## 3 — pairwise distinct property names -/
 
@@ -227,19 +237,27 @@ example : TagsOK [[s "Users", s "requests"], []] ∧
 theorem property_names_pairwise_distinct_partial (u : UInfo) (tagss : List (List Str))
     (hascii : ∀ ts ∈ tagss, ∀ t ∈ ts, t.all isAscii = true) :
     ((apiClientSkel (tagTuples u tagss)).props.map (·.1)).Nodup := by
-  have hn := groupEndpoints_modules_nodup u (opsOfTags tagss) (by
-    intro op hop t ht
-    obtain ⟨ts, hts, rfl⟩ := (mem_opsOfTags tagss op).1 hop
-    exact hascii ts hts t ht)
-  have hp := (tagTuples_perm_groups u tagss).map (fun t : TagTuple => t.module)
-  simp only [List.map_map] at hp
   simp only [apiClientSkel_props, List.map_map]
-  exact hp.nodup_iff.2 hn
+  -- the key of a tuple is its attribute name without underscores; the keys are pairwise distinct
+  apply nodup_map_of_factor (tagTuples u tagss) _ (fun t => normTagKey u t.tag) noUs
+  · intro t ht
+    obtain ⟨h1, h2⟩ := tuple_of_tags u tagss (fun c => c.all isAscii = true) kDefaultTag_ascii hascii t ht
+    simp only [Function.comp_def]
+    rw [noUs_tagAttr]
+    conv => rhs; rw [h1, tuple_module]
+    exact normTagKey_eq_noUs_sanModule u t.tag h2
+  · rw [tagTuples_keys]
+    exact tupleKeys_nodup u tagss
 
 example : ∀ ts ∈ [[s "a1", s "a_1"], [s "dataSources"], [s "data_sources"]], ∀ t ∈ ts, t.all isAscii = true := by decide
 
 example : (apiClientSkel (tagTuples UInfo.ascii [[s "a1", s "a_1"], [s "dataSources"], [s "data_sources"]])).props.map (·.1) =
     [s "a_1", s "data_sources"] := by decide
+
+/-- `request` and `request_` (like `Request`, `re-quest`, `_request`) share their key, hence their group: the trailing underscore
+    of `_tag_attr_name` cannot make two properties collide. -/
+example : (apiClientSkel (tagTuples UInfo.ascii [[s "request"], [s "request_"], [s "re-quest"]])).props.map (·.1) =
+    [s "re_quest"] := by decide
 
 /-- CPython's view of `é`: a word character, lower-case of itself. -/
 def uLatin : UInfo := { UInfo.ascii with word := fun c => c == 'é' }
@@ -251,27 +269,39 @@ theorem property_names_pairwise_distinct_counterexample :
       propSurvives (apiClientSkel (tagTuples uLatin [[s "aé"], [s "a"]])) 0 = false := by
   decide
 
-/-- ✗ `properties_survive`: every `@property` is still the attribute of that name in the finished class — false
-    (`property_shadowed_counterexample`).  Partial: ASCII tags and no tag group called `request` or `close`. -/
+/-- ✗ `properties_survive`: every `@property` is still the attribute of that name in the finished class — false for
+    non-ASCII tags only (`property_names_pairwise_distinct_counterexample`: two properties `a`).  Partial: ASCII tags.
+    **F64 repaired**: the hypothesis "no tag group called `request` or `close`" is gone - no property is shadowed by one of
+    the methods written after the properties (`property_names`). -/
 theorem properties_survive_partial (u : UInfo) (tagss : List (List Str))
     (hascii : ∀ ts ∈ tagss, ∀ t ∈ ts, t.all isAscii = true)
-    (hx : ∀ t ∈ tagTuples u tagss, t.module ∉ [kRequest, kClose])
     (i : Nat) (hi : i < (apiClientSkel (tagTuples u tagss)).props.length) :
     propSurvives (apiClientSkel (tagTuples u tagss)) i = true := by
   apply propSurvives_of _ (property_names_pairwise_distinct_partial u tagss hascii) _ i hi
   intro p hp
-  have hok : TagsOK tagss := fun ts hts t ht => .inl (hascii ts hts t ht)
-  have h2 := property_names_avoid_dunder_partial u tagss hok p hp
-  rw [apiClientSkel_props] at hp
-  obtain ⟨t, ht, rfl⟩ := List.mem_map.1 hp
-  have h3 := hx t ht
-  simp only [List.mem_cons, List.not_mem_nil, or_false, not_or] at h2 h3
-  simp only [apiClientSkel_methods, fixedMethods, List.mem_cons, List.not_mem_nil, or_false, not_or]
-  exact ⟨h3.1, h3.2, h2.2.1, h2.2.2.1⟩
+  have h := (property_names u tagss p hp).1
+  simp only [List.mem_append, not_or] at h
+  rw [apiClientSkel_methods]
+  exact h.1.1
 
-theorem property_shadowed_counterexample :
-    (apiClientSkel (tagTuples UInfo.ascii [[s "request"], [s "users"]])).props.map (·.1) = [kRequest, s "users"] ∧
-      propSurvives (apiClientSkel (tagTuples UInfo.ascii [[s "request"], [s "users"]])) 0 = false ∧
+example : (∀ ts ∈ [[s "request", s "close"], [s "Users"]], ∀ t ∈ ts, t.all isAscii = true) ∧
+    (apiClientSkel (tagTuples UInfo.ascii [[s "request", s "close"], [s "Users"]])).props.length = 3 := by decide
+
+/-- No property is ever replaced by one of the methods written after the properties (every input, every case table): a
+    property can only be shadowed by another property of the same name. -/
+theorem properties_not_shadowed_by_methods (u : UInfo) (tagss : List (List Str)) :
+    ∀ p ∈ (apiClientSkel (tagTuples u tagss)).props, p.1 ∉ (apiClientSkel (tagTuples u tagss)).methods := by
+  intro p hp
+  have h := (property_names u tagss p hp).1
+  simp only [List.mem_append, not_or] at h
+  rw [apiClientSkel_methods]
+  exact h.1.1
+
+/-- The former witness of `property_shadowed_counterexample`: the tag client of `request` is the property `request_`, which
+    survives next to the method `request`. -/
+theorem property_shadowed_former_witness :
+    (apiClientSkel (tagTuples UInfo.ascii [[s "request"], [s "users"]])).props.map (·.1) = [s "request_", s "users"] ∧
+      propSurvives (apiClientSkel (tagTuples UInfo.ascii [[s "request"], [s "users"]])) 0 = true ∧
       propSurvives (apiClientSkel (tagTuples UInfo.ascii [[s "request"], [s "users"]])) 1 = true := by
   decide
 
@@ -333,7 +363,7 @@ theorem mock_surface_partial (u : UInfo) (tagss : List (List Str)) (h1 : ∀ ts 
     have := congrArg (List.map (·.1)) hs
     simpa [surfaces, List.map_map, Function.comp_def] using this
   rw [hm, ← hL] at hp
-  simpa [apiClientSkel_props, mockClientSkel_props, mockTuples, List.map_map, Function.comp_def, TagTuple.module] using hp
+  simpa [apiClientSkel_props, mockClientSkel_props, mockTuples, List.map_map, Function.comp_def, TagTuple.module] using hp.map tagAttr
 
 example :
     let tagss := [[s "Users"], [], [s "Users"], [s "admin-ops"]]
@@ -367,22 +397,59 @@ theorem mock_duplicate_argument_counterexample :
       visitSyntaxOk (tagTuples UInfo.ascii [[s "Users"], [s "users"]]) = true := by
   decide
 
-/-- ✗ witness (defect class `mock-client-self-argument`): the tag `self` is the keyword `self` of `MockAPIClient.__init__`
-    next to the receiver `self`. -/
-theorem mock_self_argument_counterexample :
-    (mockClientSkel (mockTuples UInfo.ascii [[s "self"]])).initParams = [kSelf, kSelf] ∧
-      mockSyntaxOk (mockTuples UInfo.ascii [[s "self"]]) = false ∧ visitSyntaxOk (tagTuples UInfo.ascii [[s "self"]]) = true := by
+/-- The former witness of `mock_self_argument_counterexample` (defect class `mock-client-self-argument`): the keyword of the tag
+    `self` is `self_`, next to the receiver `self`: `mock_client.py` compiles. -/
+theorem mock_self_argument_former_witness :
+    (mockClientSkel (mockTuples UInfo.ascii [[s "self"]])).initParams = [kSelf, s "self_"] ∧
+      mockSyntaxOk (mockTuples UInfo.ascii [[s "self"]]) = true ∧ visitSyntaxOk (tagTuples UInfo.ascii [[s "self"]]) = true := by
   decide
+
+/-- **F64 repaired.**  For every list of tuples the receiver `self` of `MockAPIClient.__init__` differs from every keyword. -/
+theorem mock_self_never_a_keyword (tt : List TagTuple) : kSelf ∉ (mockClientSkel tt).initParams.tail := by
+  rw [mockClientSkel_initParams]
+  intro h
+  obtain ⟨t, _, ht⟩ := List.mem_map.1 h
+  have h' := (tagAttr_not_own t.module).1
+  rw [ht] at h'
+  exact h' (by decide)
 
 /-! ## 6 — private attributes -/
 
-/-- ✗ `private_attr_names_distinct_from_public` is false for non-ASCII tags (`private_attr_counterexample`) and for
-    `_base_url` (`private_attr_base_url_counterexample`).  Partial, `TagsOK`: the private attribute `_<module>` of a tag
-    client is never the name of a property, nor `config`, `transport`, nor a fixed method. -/
+/-- **F64 repaired.**  For every input and every case table the private attribute `_<attr>` in which `APIClient` (and
+    `MockAPIClient`) stores a tag client is none of the names the class defines itself: not `config`, `transport`, `_base_url`
+    (the attribute that holds the base URL), a fixed method, or `__init__`. -/
+theorem private_attr_never_own_member (u : UInfo) (tagss : List (List Str)) :
+    ∀ a ∈ (apiClientSkel (tagTuples u tagss)).attrs.drop fixedAttrs.length, a ∉ fixedAttrs ++ fixedMethods ++ [kInit] := by
+  intro a ha
+  rw [apiClientSkel_attrs, List.drop_left] at ha
+  obtain ⟨t, _, rfl⟩ := List.mem_map.1 ha
+  have h := (tagAttr_not_own t.module).2
+  simp only [ownMembers, List.mem_cons, List.not_mem_nil, or_false, not_or] at h
+  simp only [fixedMethods, fixedAttrs, List.cons_append, List.nil_append, List.mem_cons, List.not_mem_nil, or_false, not_or]
+  exact ⟨h.1, h.2.1, h.2.2.1, h.2.2.2.1, h.2.2.2.2.1, h.2.2.2.2.2.1, h.2.2.2.2.2.2.1, h.2.2.2.2.2.2.2.1⟩
+
+/-- … hence the instance attributes assigned in `APIClient.__init__` never re-assign `config`, `transport` or `_base_url`. -/
+theorem fixed_attrs_assigned_once (u : UInfo) (tagss : List (List Str)) :
+    ∀ x ∈ fixedAttrs, (apiClientSkel (tagTuples u tagss)).attrs.count x = 1 := by
+  intro x hx
+  have hnot : x ∉ (tagTuples u tagss).map (fun t => privAttr (tagAttr t.module)) := by
+    intro hmem
+    have h1 : x ∈ (apiClientSkel (tagTuples u tagss)).attrs.drop fixedAttrs.length := by
+      rw [apiClientSkel_attrs, List.drop_left]; exact hmem
+    have := private_attr_never_own_member u tagss x h1
+    simp only [List.mem_append, not_or] at this
+    exact this.1.1 hx
+  rw [apiClientSkel_attrs, List.count_append, List.count_eq_zero.2 hnot]
+  simp only [fixedAttrs, List.mem_cons, List.not_mem_nil, or_false] at hx
+  rcases hx with rfl | rfl | rfl <;> decide
+
+/-- ✗ `private_attr_names_distinct_from_public` is false for non-ASCII tags (`private_attr_counterexample`).  Partial,
+    `TagsOK`: the private attribute `_<attr>` of a tag client is never the name of a property; and (every input) it is none
+    of `config`, `transport`, `_base_url`, nor a fixed method.  **F64 repaired**: `_base_url` is no longer excluded. -/
 theorem private_attr_names_distinct_from_public_partial (u : UInfo) (tagss : List (List Str)) (hok : TagsOK tagss) :
     ∀ t ∈ tagTuples u tagss,
-      privAttr t.module ∉ (apiClientSkel (tagTuples u tagss)).props.map (·.1) ∧
-      privAttr t.module ≠ kConfig ∧ privAttr t.module ≠ kTransport ∧ privAttr t.module ∉ fixedMethods := by
+      privAttr (tagAttr t.module) ∉ (apiClientSkel (tagTuples u tagss)).props.map (·.1) ∧
+      privAttr (tagAttr t.module) ∉ fixedAttrs ∧ privAttr (tagAttr t.module) ∉ fixedMethods := by
   have hmod : ∀ t ∈ tagTuples u tagss, ModOK t.module ∧ (t.tag.all isAscii = true ∨ t.tag.any isAlnumA = true) ∧
       t = mkTuple u t.tag := by
     intro t ht
@@ -390,14 +457,22 @@ theorem private_attr_names_distinct_from_public_partial (u : UInfo) (tagss : Lis
       (.inr kDefaultTag_alnum) hok t ht
     exact ⟨by rw [h1, tuple_module]; exact sanModule_modOK u _ h2, h2, h1⟩
   intro t ht
-  refine ⟨?_, ?_, ?_, ?_⟩
+  have hown := (tagAttr_not_own t.module).2
+  simp only [ownMembers, List.mem_cons, List.not_mem_nil, or_false, not_or] at hown
+  refine ⟨?_, ?_, ?_⟩
   · intro hmem
     simp only [apiClientSkel_props, List.map_map] at hmem
     obtain ⟨t', ht', heq⟩ := List.mem_map.1 hmem
     simp only [Function.comp_def] at heq
     obtain ⟨hm, hta, hte⟩ := hmod t ht
     obtain ⟨hm', hta', hte'⟩ := hmod t' ht'
-    obtain ⟨hu, hu'⟩ := priv_eq_mod _ _ hm hm' heq.symm
+    obtain ⟨hu0, hu0'⟩ := priv_eq_mod _ _ (tagAttr_modOK _ hm) (tagAttr_modOK _ hm') heq.symm
+    -- an attribute name of underscores only is the module name itself
+    have ea := tagAttr_of_allUs _ hu0
+    have ea' := tagAttr_of_allUs _ hu0'
+    rw [ea] at hu0
+    rw [ea'] at hu0'
+    rw [ea, ea'] at heq
     -- both module names consist of underscores only: both tags are ASCII without alphanumeric, both keys are empty
     have key0 : ∀ x ∈ tagTuples u tagss, allUsB x.module = true → normTagKey u x.tag = [] := by
       intro x hx hxu
@@ -416,8 +491,8 @@ theorem private_attr_names_distinct_from_public_partial (u : UInfo) (tagss : Lis
       rw [normTagKey_eq_noUs_sanModule u _ hasc]
       apply noUs_of_all_us
       exact sanModule_all_us u _ hasc hna
-    have hk := key0 t ht hu
-    have hk' := key0 t' ht' hu'
+    have hk := key0 t ht hu0
+    have hk' := key0 t' ht' hu0'
     obtain ⟨k, hkm, hkt⟩ := mem_tagTuples u tagss t ht
     obtain ⟨k', hkm', hkt'⟩ := mem_tagTuples u tagss t' ht'
     have e1 : k = [] := by
@@ -428,33 +503,31 @@ theorem private_attr_names_distinct_from_public_partial (u : UInfo) (tagss : Lis
     subst this
     have := congrArg List.length heq
     simp [privAttr] at this
-  · intro h; unfold privAttr at h; revert h; unfold kConfig; simp
-  · intro h; unfold privAttr at h; revert h; unfold kTransport; simp
-  · obtain ⟨hm, _, _⟩ := hmod t ht
-    have hne : ∀ x : Str, modHeadB x = false → allUsB x = false → privAttr t.module ≠ '_' :: x := by
-      intro x h1 h2 h
-      unfold privAttr at h
-      exact ne_of_modOK _ _ hm h1 h2 (List.cons.inj h).2
-    simp only [fixedMethods, List.mem_cons, List.not_mem_nil, or_false, not_or]
-    refine ⟨?_, ?_, hne (s "_aenter__") (by decide) (by decide), hne (s "_aexit__") (by decide) (by decide)⟩
-    · intro h; unfold privAttr at h; revert h; unfold kRequest; simp
-    · intro h; unfold privAttr at h; revert h; unfold kClose; simp
+  · simp only [fixedAttrs, List.mem_cons, List.not_mem_nil, or_false, not_or]
+    exact ⟨hown.1, hown.2.1, hown.2.2.1⟩
+  · simp only [fixedMethods, List.mem_cons, List.not_mem_nil, or_false, not_or]
+    exact ⟨hown.2.2.2.1, hown.2.2.2.2.1, hown.2.2.2.2.2.1, hown.2.2.2.2.2.2.1⟩
 
-/-- ✗ witness (defect class `private-attr-collision`, found by this model): a tag group whose module name is `base_url`
-    (`base_url`, `base-url`, `BaseUrl`, `base url` …) stores its lazily built client in `self._base_url` — the attribute that
-    holds the base URL: `__init__` overwrites the URL with `None`, and every tag client is then built with the `BaseUrlClient`
-    (or `None`) as its `base_url`. -/
-theorem private_attr_base_url_counterexample :
+example : TagsOK [[s "données", s "-"], [s "base_url"]] := by
+  intro ts hts t ht
+  simp only [List.mem_cons, List.not_mem_nil, or_false] at hts
+  rcases hts with rfl | rfl
+  · simp only [List.mem_cons, List.not_mem_nil, or_false] at ht
+    rcases ht with rfl | rfl
+    · exact .inr (by decide)
+    · exact .inl (by decide)
+  · simp only [List.mem_cons, List.not_mem_nil, or_false] at ht
+    subst ht
+    exact .inl (by decide)
+
+/-- The former witness of `private_attr_base_url_counterexample` (defect class `private-attr-collision`): a tag group whose
+    module name is `base_url` (`base_url`, `base-url`, `BaseUrl`, `base url` …) is the property `base_url_` and stores its lazily
+    built client in `self._base_url_` — not in `self._base_url`, the attribute that holds the base URL. -/
+theorem private_attr_base_url_former_witness :
     (apiClientSkel (tagTuples UInfo.ascii [[s "base-url"], [s "users"]])).attrs =
-      [kConfig, kTransport, kBaseUrl, kBaseUrl, s "_users"] := by
+      [kConfig, kTransport, kBaseUrl, s "_base_url_", s "_users"] ∧
+    (apiClientSkel (tagTuples UInfo.ascii [[s "base-url"], [s "users"]])).props.map (·.1) = [s "base_url_", s "users"] := by
   decide
-
-/-- … and that is the only way: `_<module>` is `_base_url` iff the module name is `base_url`. -/
-theorem private_attr_base_url_iff (m : Str) : privAttr m = kBaseUrl ↔ m = s "base_url" := by
-  unfold privAttr
-  constructor
-  · intro h; exact (List.cons.inj h).2
-  · rintro rfl; rfl
 
 /-- CPython's view of the Kelvin sign (U+212A, `'\u212a'`): a word character whose lower case is the ASCII letter `k`; `é` is a
     word character. -/
